@@ -328,11 +328,12 @@ func runC14(w *core.World, r *core.Report) {
 		r.Check(bad == "", "R3", core.QName(fn)+": decodes every length the encoder can emit", fn.Pos(), "bounds arithmetic cannot wrap or overrun", "the primitive decoder cannot decode some encodable length (for instance a 255-byte symbol): "+bad)
 	}
 	r.Floor("R3", "primitive decoders", nprim, 2)
-	limitCheck := func(pkg, name string, limit int64, what string) {
-		fn := anchor(w, r, pkg, name)
+	limitCheck := func(fn *ssa.Function, roleName string, limit int64, what string) {
 		if fn == nil {
+			r.Undecided("R3", roleName+": "+what, token.NoPos, "role not resolved")
 			return
 		}
+		r.Touch(core.QName(fn))
 		ok := false
 		for _, b := range fn.Blocks {
 			for _, in := range b.Instrs {
@@ -358,11 +359,11 @@ func runC14(w *core.World, r *core.Report) {
 				}
 			}
 		}
-		r.Check(ok, "R3", pkg+"."+name+": "+what, fn.Pos(), fmt.Sprintf("refuses more than %d", limit), fmt.Sprintf("the %s limit of %d is not enforced", what, limit))
+		r.Check(ok, "R3", roleName+": "+what, fn.Pos(), fmt.Sprintf("refuses more than %d", limit), fmt.Sprintf("the %s limit of %d is not enforced", what, limit))
 	}
-	limitCheck("asm", "writeSym", 255, "symbol length")
-	limitCheck("asm", "writeSize", 4, "integer width")
-	limitCheck("vm", "intSplit", 4, "integer length byte")
+	limitCheck(asmWriter(w, "string"), "assembler symbol writer", 255, "symbol length")
+	limitCheck(asmWriter(w, "uint32"), "assembler integer writer", 4, "integer width")
+	limitCheck(primitiveDecoder(w, "I"), "integer decoder", 4, "integer length byte")
 
 	// ---- R4 -----------------------------------------------------------------------------------
 	checkNoRightTrim(w, r, "R4")
